@@ -167,6 +167,7 @@ Definition vty_of_code (c : nat) : vty :=
   | 0 => VBool | 1 => VUInt 1 | 2 => VSInt 1 | 3 => VUInt 2 | 4 => VSInt 2 | 5 => VUInt 4 | 6 => VSInt 4
   | 7 => VUInt 8 | 8 => VSInt 8 | 9 => VFloat 4 | 10 => VFloat 8 | 11 => VEnumU 1 | 12 => VEnumS 4
   | 13 => VPtr 0 | 14 => VPtr 2 | 15 => VPtr 1 | 16 => VFahr | 17 => VCels | 18 => VWrap | 19 => VMv | 20 => VRaw | 21 => VHandle
+  | 22 => VMv      (* harness type Tok: trivial copy constructor, user-provided move constructor *)
   | _ => VSInt 1
   end%nat.
 Definition form_of_code (c : nat) : form :=
